@@ -186,6 +186,62 @@ theorem runPipe_spec (rv : Bool) (fault : Option Nat) (f : Field) (h : List Sett
         · simp at hh
     simp [hp]
 
+/-! ### nested pipes -/
+
+theorem runPipe_append (rv : Bool) (fault : Option Nat) (f : Field) (a b : List Setter) (tr : List Event) (v : Val) :
+    runPipe rv fault f (a ++ b) tr v =
+      match runPipe rv fault f a tr v with
+      | (tr', .ok v') => runPipe rv fault f b tr' v'
+      | (tr', .error x) => (tr', .error x) := by
+  induction a generalizing tr v with
+  | nil => simp [runPipe]
+  | cons s rest ih =>
+    simp only [List.cons_append, runPipe]
+    cases runSetter rv fault f s tr v with
+    | mk tr' r =>
+      cases r with
+      | error x => rfl
+      | ok v' => simp only; exact ih tr' v'
+
+theorem runPipe_single (rv : Bool) (fault : Option Nat) (f : Field) (s : Setter) (tr : List Event) (v : Val) :
+    runPipe rv fault f [s] tr v = runSetter rv fault f s tr v := by
+  simp only [runPipe]
+  cases runSetter rv fault f s tr v with
+  | mk tr' r => cases r <;> rfl
+
+mutual
+/-- calling a hook expression the way the real (nested) pipe objects are called is running its flattening -/
+theorem runHook_flat (rv : Bool) (fault : Option Nat) (f : Field) :
+    ∀ (h : Hook) (tr : List Event) (v : Val),
+      runHook rv fault f h tr v = runPipe rv fault f h.flatten tr v
+  | .leaf s, tr, v => by simp only [runHook, Hook.flatten, runPipe_single]
+  | .pipe l, tr, v => by
+    simp only [runHook, Hook.flatten]
+    exact runHooks_flat rv fault f l tr v
+theorem runHooks_flat (rv : Bool) (fault : Option Nat) (f : Field) :
+    ∀ (l : List Hook) (tr : List Event) (v : Val),
+      runHooks rv fault f l tr v = runPipe rv fault f (flattenList l) tr v
+  | [], tr, v => by simp only [runHooks, flattenList, runPipe]
+  | h :: t, tr, v => by
+    simp only [runHooks, flattenList, runPipe_append]
+    rw [runHook_flat rv fault f h tr v]
+    cases runPipe rv fault f h.flatten tr v with
+    | mk tr' r =>
+      cases r with
+      | error x => rfl
+      | ok v' => simp only; exact runHooks_flat rv fault f t tr' v'
+end
+
+theorem flattenList_append (a b : List Hook) : flattenList (a ++ b) = flattenList a ++ flattenList b := by
+  induction a with
+  | nil => simp [flattenList]
+  | cons h t ih => simp [flattenList, ih, List.append_assoc]
+
+theorem flattenList_leaves (l : List Setter) : flattenList (l.map Hook.leaf) = l := by
+  induction l with
+  | nil => simp [flattenList]
+  | cons s t ih => simp [flattenList, Hook.flatten, ih]
+
 theorem frozen_not_mem {h : List Setter} (e : h.contains Setter.frozen = false) : Setter.frozen ∉ h := by
   intro hm; rw [List.contains_iff_mem.2 hm] at e; cases e
 
